@@ -3,7 +3,9 @@ package soyhtml
 import (
 	"sync"
 
+	"github.com/robfig/soy/ast"
 	"github.com/robfig/soy/data"
+	"github.com/robfig/soy/soymsg"
 )
 
 var c08Templates = [][]string{
@@ -16,7 +18,45 @@ var c08Templates = [][]string{
 		"{let $mm: ['k': $x, 'j': [1, 2]] /}{$mm['k']}{$mm.j[1]}{keys($mm)|length}{let $am: augmentMap($mm, ['z': 1]) /}{$am.z}{$ij.inj}\n{/template}\n"},
 	// 2: a template that fails half way (undefined print after output and a let)
 	{"{namespace a}\n/** @param x\n @param? l\n @param? u */\n{template .t}\nbefore{if $l}L{/if}{let $y: $x /}{$y}{call .w data=\"all\"}{param z: 1 /}{/call}{$u}after\n{/template}\n/** @param x\n @param z */\n{template .w}\n{$x}{$z}\n{/template}\n"},
+	// 3: rendered through a translating catalogue: two messages with the same text and placeholder
+	// names (hence the same id) whose placeholders stand for different content
+	{"{namespace a}\n/** @param x */\n{template .t}\n{msg desc=\"d\"}Go <a href=\"/beta\">{$x|noAutoescape}</a>!{/msg}{msg desc=\"e\"}untranslated {$x}{/msg}\n{/template}\n" +
+		"/** @param x */\n{template .other}\n{msg desc=\"d\"}Go <a href=\"/alpha\">{$x}</a>!{/msg}\n{/template}\n"},
 }
+
+// c08Catalogue translates every message whose text is "Go <a>X</a>!".
+type c08Catalogue struct{ ids map[uint64]bool }
+
+func (b c08Catalogue) Locale() string { return "xx" }
+func (b c08Catalogue) Message(id uint64) *soymsg.Message {
+	if !b.ids[id] {
+		return nil
+	}
+	return &soymsg.Message{ID: id, Parts: []soymsg.Part{soymsg.RawTextPart{Text: "Va "}, soymsg.PlaceholderPart{Name: "START_LINK"},
+		soymsg.PlaceholderPart{Name: "X"}, soymsg.PlaceholderPart{Name: "END_LINK"}, soymsg.RawTextPart{Text: " !"}}}
+}
+func (b c08Catalogue) PluralCase(n int) int { return 0 }
+
+func c08MakeCatalogue(t *Tofu) soymsg.Bundle {
+	b := c08Catalogue{map[uint64]bool{}}
+	var walk func(n ast.Node)
+	walk = func(n ast.Node) {
+		if m, ok := n.(*ast.MsgNode); ok && m.Desc == "d" {
+			b.ids[m.ID] = true
+		}
+		if p, ok := n.(ast.ParentNode); ok {
+			for _, c := range p.Children() {
+				walk(c)
+			}
+		}
+	}
+	for _, tp := range t.registry.Templates {
+		walk(tp.Node)
+	}
+	return b
+}
+
+var c08Msgs soymsg.Bundle // catalogue used by verifRenderIJ (nil: none)
 
 func c08Data(d int) data.Map {
 	x := data.String(verifString(1))
@@ -36,7 +76,7 @@ const c08Failing = "{namespace f}\n/** @param? u */\n{template .block}\nA{let $z
 	"/** @param? u */\n{template .param}\nB{call .w}{param z}x{$u.nope}{/param}{/call}\n{/template}\n/** @param z */\n{template .w}\n{$z}\n{/template}\n" +
 	"/** @param? u */\n{template .log}\nC{log}l{$u.nope}{/log}\n{/template}\n/** @param? u */\n{template .plain}\nD{$u.nope}\n{/template}\n"
 
-var c08Prior = []string{"", "f.block", "f.param", "f.log", "f.plain"}
+var c08Prior = []string{"", "f.block", "f.param", "f.log", "f.plain", "", "a.other"}
 
 // H_pure: renders of template set t with the same (symbolic) data under frozen memory: every
 // cell reachable from the compiled registry, the data map, the injected data and all
@@ -44,15 +84,22 @@ var c08Prior = []string{"", "f.block", "f.param", "f.log", "f.plain"}
 // print directive. prior selects what happens before: nothing, a render that fails inside a let
 // content block / a param content block / a log block / a print (1..4), or a render of the same
 // template into a writer that starts failing at a symbolically chosen write (5). The renders after
-// it must write exactly what the very first render wrote.
+// it must write exactly what the very first render wrote. Template set 3 is rendered through a
+// translating catalogue; prior 6 renders another template of that set (a.other) in between.
 func H_pure(t, d int, oblig bool, prior int) {
 	tofu := verifMustCompile(append(append([]string{}, c08Templates[t]...), c08Failing)...)
+	c08Msgs = nil
+	if t == 3 {
+		c08Msgs = c08MakeCatalogue(tofu)
+	} else if prior == 6 {
+		return
+	}
 	if oblig {
 		PrintDirectives["verifBang"] = PrintDirective{verifBang, []int{0}, false}
 		ObligatoryPrintDirectiveNames = []string{"verifBang"}
 	}
 	m, ij := c08Data(d), data.Map{"inj": data.String("I")}
-	before := verifDeepDigest(tofu, m, ij, PrintDirectives, ObligatoryPrintDirectiveNames, Funcs)
+	before := verifDeepDigest(tofu, m, ij) + verifGlobalsDigest()
 	verifFreeze("compiled registry", tofu)
 	verifFreeze("caller data", m, ij)
 	verifFreezeGlobals()
@@ -64,11 +111,21 @@ func H_pure(t, d int, oblig bool, prior int) {
 	case prior == 5:
 		w := &faultWriter{}
 		tofu.NewRenderer("a.t").Inject(ij).Execute(w, m)
+	case prior == 6:
+		po, perr := verifRenderIJ(tofu, c08Prior[prior], m, ij)
+		verifAssert(perr == nil, "harness: the prior render failed")
+		verifObserve("prior", po)
+		// what a.other writes is known: its own link around the escaped value
+		const pre, suf = "Va <a href=\"/alpha\">", "</a> !"
+		verifAssert(len(po) >= len(pre)+len(suf) && po[:len(pre)] == pre && po[len(po)-len(suf):] == suf,
+			"a render after a render of another template writes that template's content")
+		mid, ok := decodeEntities(po[len(pre) : len(po)-len(suf)])
+		verifAssert(ok && mid == string(m["x"].(data.String)), "a render after a render of another template loses its escaping")
 	}
 	out1, err1 := verifRenderIJ(tofu, "a.t", m, ij)
 	out2, err2 := verifRenderIJ(tofu, "a.t", m, ij)
 	verifUnfreeze()
-	after := verifDeepDigest(tofu, m, ij, PrintDirectives, ObligatoryPrintDirectiveNames, Funcs)
+	after := verifDeepDigest(tofu, m, ij) + verifGlobalsDigest()
 	verifObserve("out", out0)
 	verifAssert((err0 == nil) == (err1 == nil) && (err1 == nil) == (err2 == nil), "a later render of the same template with the same data differs in outcome")
 	verifAssert(out0 == out1 && out1 == out2, "a later render of the same template with the same data writes different bytes")
@@ -101,7 +158,11 @@ func verifRenderIJ(t *Tofu, name string, m, ij data.Map) (string, error) {
 	w.failed = false
 	var out []byte
 	sink := &sliceWriter{&out}
-	err := t.NewRenderer(name).Inject(ij).Execute(sink, m)
+	r := t.NewRenderer(name).Inject(ij)
+	if c08Msgs != nil {
+		r = r.WithMessages(c08Msgs)
+	}
+	err := r.Execute(sink, m)
 	return string(out), err
 }
 
